@@ -18,11 +18,13 @@ QUICK_VARIANTS = [
     ("sse2", SIMD + ["-msse2"], "g++", "-O1"),
     ("sse4.1", SIMD + ["-msse4.1"], "g++", "-O1"),
     ("avx2+fma", SIMD + ["-mavx2", "-mfma"], "g++", "-O2"),
+    ("avx", SIMD + ["-mavx"], "g++", "-O1"),                                                       # the AVX-without-AVX2 branches (256-bit double permutes)
+    ("sse2-wxyz", SIMD + ["-msse2", "-DGLM_FORCE_QUAT_DATA_WXYZ"], "g++", "-O1"),                # the WXYZ branches of type_quat_simd.inl
 ]
 THOROUGH_VARIANTS = QUICK_VARIANTS + [
     ("sse3", SIMD + ["-msse3"], "g++", "-O1"), ("ssse3", SIMD + ["-mssse3"], "g++", "-O2"), ("sse4.2", SIMD + ["-msse4.2"], "g++", "-O1"),
-    ("avx", SIMD + ["-mavx"], "g++", "-O1"), ("avx2", SIMD + ["-mavx2"], "g++", "-O1"),
-    ("sse2-wxyz", SIMD + ["-msse2", "-DGLM_FORCE_QUAT_DATA_WXYZ"], "g++", "-O1"), ("avx2+fma-wxyz", SIMD + ["-mavx2", "-mfma", "-DGLM_FORCE_QUAT_DATA_WXYZ"], "g++", "-O1"),
+    ("avx2", SIMD + ["-mavx2"], "g++", "-O1"),
+    ("avx2+fma-wxyz", SIMD + ["-mavx2", "-mfma", "-DGLM_FORCE_QUAT_DATA_WXYZ"], "g++", "-O1"),
     ("clang-sse2", SIMD + ["-msse2"], "clang++", "-O1"), ("clang-sse4.1", SIMD + ["-msse4.1"], "clang++", "-O2"), ("clang-avx2+fma", SIMD + ["-mavx2", "-mfma"], "clang++", "-O2"),
     ("sse2-O0", SIMD + ["-msse2"], "g++", "-O0"), ("avx2+fma-O3", SIMD + ["-mavx2", "-mfma"], "g++", "-O3"),
 ]
@@ -36,7 +38,7 @@ def run(ctx):
     if not ctx.quick:
         ctx.mc("MC_C03", "MC_C03_half.cfg", what="the same kernels over all 65536 binary16 patterns", timeout=1800)
     variants = QUICK_VARIANTS if ctx.quick else THOROUGH_VARIANTS
-    bases = [PURE] if ctx.quick else [PURE, PURE_WXYZ]
+    bases = [PURE, PURE_WXYZ]
     specs = [{"name": "c03_" + re.sub(r"\W", "_", lab), "src": "c03.cpp", "flags": flags, "cxx": cxx, "opt": opt, "lab": lab} for (lab, flags, cxx, opt) in bases + variants]
     t = time.time()
     built = vlib.build_many(specs)
@@ -85,7 +87,7 @@ def run(ctx):
             pass
     ctx.rule("harness c03.cpp (component-wise float / int / uint / double vector functions and operators on vec2/3/4, geometric functions incl. "
              "refract / faceforward branch ties, mat3 / mat4 products, transpose, determinant, inverse, quaternion algebra and conversions, for "
-             "highp / mediump / lowp) compiled pure and at %d intrinsic configurations (%s); every event pair related by CrossCfg.tla mode simd"
+             "highp / mediump / lowp) compiled pure and at %d intrinsic configurations (%s; WXYZ variants against a pure WXYZ build); every event pair related by CrossCfg.tla mode simd"
              % (len(variants), ", ".join(v[0] for v in variants)), exhaustive=False)
     ctx.assumptions += ["the instruction-set levels are exercised on this host's CPU (all levels up to AVX2+FMA are available here)",
                         "tolerance of the multi-term class: 16 eps x max(1,|inputs|)^degree (256 eps for the inverse family); lowp approximations 2^-9 of the result scale",
